@@ -122,7 +122,19 @@ fn case_fn(case: &mut Case) -> CaseResult {
         }
     }
     let schema_text = canon_ts(&gs.doc);
-    let op_text = canon_op(&doc);
+    // a third of the documents are written with random legal trivia and string spellings (the text the user wrote
+    // is rarely canonical; block strings stay out: C07-block-string-raw)
+    let op_text = if case.ch.chance(1, 3) {
+        case.label("source-with-random-trivia");
+        let mut r = RenderOpts::wild();
+        r.allow_cooked_block = false;
+        r.allow_block = false;
+        r.allow_surrogate_escape = false;
+        r.allow_shorthand = false;
+        render_op_doc(&doc, r, Some(&mut case.ch)).text
+    } else {
+        canon_op(&doc)
+    };
     let detail = json!({"schema": schema_text, "operations": op_text});
     let sfiles = vec![(PathBuf::from("/p/schema.graphql"), schema_text.clone())];
     let ofiles = vec![(PathBuf::from("/p/ops.graphql"), op_text.clone())];
